@@ -244,11 +244,12 @@ func CanonVal(v val.Value) string {
 	case val.IdentRef:
 		return "id:" + x.Label
 	case val.Bits:
-		return "bits:" + strings.Join(x.Labels, " ")
+		// the set positions identify the value (stores keep only those)
+		return strconv.FormatUint(x.Positions, 10)
 	case val.Decimal64:
 		return fmtFloat(float64(x))
 	case val.Binary:
-		return "bin:" + string(x)
+		return fmt.Sprintf("bytes:%x", x.Value())
 	case val.NotEmptyType:
 		return "empty"
 	}
